@@ -116,7 +116,7 @@ def table():
         caught = [k.split()[0] for k, v in f.items() if v.startswith("caught")]
         quiet = [k.split()[0] for k, v in f.items() if v == "missed"]
         needs = m["needs_to_manifest"]
-        needs = needs if len(needs) < 150 else needs[:147] + "..."
+        needs = (needs if len(needs) < 150 else needs[:147] + "...").replace("|", "\\|")
         print(f"| {sid} | {m['breaks_property']} | {needs} | {', '.join(caught) or '**none**'} | {', '.join(quiet)} |")
 
 
